@@ -125,6 +125,45 @@ def ns_tree_refused_many(attr, datum, other=None):
     return None, {'root': root, 'URL': 'http://h/x', 'RESPONSE': Response()}
 
 
+class SizedBag:
+    """a collection with a length and an iteration order but no
+    subscription (a catalog result wrapper, a dict view, a set)"""
+
+    def __init__(self, items):
+        self._items = list(items)
+
+    def __len__(self):
+        return len(self._items)
+
+    def __iter__(self):
+        return iter(self._items)
+
+
+def in_container(kind, items):
+    if kind == 'tuple':
+        return tuple(items)
+    if kind == 'view':
+        return {i: x for i, x in enumerate(items)}.values()
+    if kind == 'bag':
+        return SizedBag(items)
+    if kind == 'iter':
+        return iter(items)
+    return items
+
+
+def other_container(builder, key, kind):
+    """the same namespace with the refused items held by another kind of
+    collection (what a branches method / a sequence name may hand out)"""
+    def build(attr, datum, other=None):
+        client, ns = builder(attr, datum, other)
+        if key == 'root':
+            ns['root'].kids = in_container(kind, ns['root'].kids)
+        else:
+            ns[key] = in_container(kind, ns[key])
+        return client, ns
+    return build
+
+
 class EqNode(Node):
     """distinct objects that compare equal (wrappers of one document)"""
 
@@ -465,6 +504,21 @@ CHANNELS = [
      '</dtml-in>', ns_seq_refused_equal, 'items'),
     ('item-in-batch-skip-equal', '<dtml-in seq size=3 skip_unauthorized>'
      '<dtml-var pubdata>,</dtml-in>', ns_seq_refused_equal, 'items'),
+] + [
+    ('item-tree%s-%s' % (sk, kind), '<dtml-tree root%s><dtml-var label>,'
+     '</dtml-tree>' % opt, other_container(ns_tree_refused_many, 'root',
+                                           kind), 'items,mayfail')
+    for sk, opt in (('', ''), ('-skip', ' skip_unauthorized'))
+    for kind in ('tuple', 'view', 'bag', 'iter')
+] + [
+    ('item-in%s-%s' % (sk, kind), '<dtml-in seq%s><dtml-var pubdata>,'
+     '</dtml-in>' % opt, other_container(ns_seq_refused_many, 'seq', kind),
+     'items,mayfail')
+    for sk, opt in (('', ''), ('-skip', ' skip_unauthorized'),
+                    ('-batch', ' size=3'),
+                    ('-batch-skip', ' size=3 skip_unauthorized'))
+    for kind in ('tuple', 'view', 'bag', 'iter')
+] + [
     ('presub-expr', '<dtml-var presub>',
      prerendered_sub(ns_obj, '[<dtml-var "o.ATTR">]'), 'expr'),
     ('presub-if-expr', '<dtml-var presub>',
@@ -792,7 +846,11 @@ def run(case):
                         {'source': src, 'refused': 'the first item',
                          'run1': o1, 'run2': o2, 'policy_log': l1})
         (a1, _), (a2, _) = both(R, [])
-        if a1 == a2 or not (a1[0] == 'ok' and D1 in a1[1]):
+        if 'mayfail' in flags and a1 == a2 and a1[0] == 'exc':
+            # a collection the tag cannot subscript: nothing is shown to
+            # anybody, which divulges nothing
+            pass
+        elif a1 == a2 or not (a1[0] == 'ok' and D1 in a1[1]):
             res.violate('harness', 'harness:item-channel-shows-nothing:%s'
                         % cid, {'source': src, 'allowed_run': a1})
         res.outcome = 'items:%s' % o1[0]
